@@ -14,6 +14,14 @@ fn main() {
         std::process::exit(2);
     }
     let prop = args[1].clone();
+    if prop == "tok" {
+        // development aid: print the normalised token text of a fn body
+        let m = model::Model::load(&PathBuf::from(args.get(3).cloned().unwrap_or("/repo".into()))).unwrap();
+        for f in m.fns.iter().filter(|f| f.name == args[2]) {
+            println!("== {}\n{}", f.key, model::tok(&f.block));
+        }
+        return;
+    }
     let mut tier = std::env::var("VERIF_TIER").unwrap_or_else(|_| "quick".into());
     let mut repo = PathBuf::from("/repo");
     let mut verif = PathBuf::from("/verif");
